@@ -178,10 +178,14 @@ func fnPkgName(fn *ssa.Function) string {
 
 // frameCheck: nothing outside the `modifies` locations (and outside objects allocated by the call) changed.
 func (fr *Frame) frameCheck(fc *FuncContract, ex exitPoint, env *Env) {
+	fr.frameObligations(fc.Of("modifies"), fr.entry, ex.st, ex.pc, FuncKey(fr.fn)+"/frame", ex.pos)
+}
+
+// frameObligations: between initSt and finalSt nothing outside the locations of the clauses (evaluated in initSt)
+// and outside objects allocated since function entry changed.
+func (fr *Frame) frameObligations(clauses []*Clause, initSt, finalSt *State, pc T, prefix string, pos token.Pos) {
 	vc := fr.vc
-	key := FuncKey(fr.fn)
-	// collect allowed locations, evaluated in the entry state
-	entryEnv := fr.contractEnv(fr.entry, True)
+	entryEnv := fr.contractEnv(initSt, True)
 	type locInfo struct {
 		class string
 		ref   T
@@ -190,7 +194,7 @@ func (fr *Frame) frameCheck(fc *FuncContract, ex exitPoint, env *Env) {
 	var locs []locInfo
 	everything := false
 	var tags []string
-	for _, cl := range fc.Of("modifies") {
+	for _, cl := range clauses {
 		tags = unionTags(tags, cl.Tags)
 		for _, loc := range cl.Locs {
 			if c, ok := loc.(*ECall); ok {
@@ -230,7 +234,7 @@ func (fr *Frame) frameCheck(fc *FuncContract, ex exitPoint, env *Env) {
 				}
 			}
 			if id, ok := loc.(*EIdent); ok {
-				if _, isGhost := fr.entry.ghost[id.Name]; isGhost {
+				if _, isGhost := initSt.ghost[id.Name]; isGhost {
 					continue
 				}
 			}
@@ -277,8 +281,8 @@ func (fr *Frame) frameCheck(fc *FuncContract, ex exitPoint, env *Env) {
 	r := vc.fresh("frame_r", SortRef)
 	for _, class := range classes {
 		srt := vc.classSort[class]
-		final := vc.heapGet(ex.st, class, srt)
-		init := vc.heapGet(fr.entry, class, srt)
+		final := vc.heapGet(finalSt, class, srt)
+		init := vc.heapGet(initSt, class, srt)
 		if final == init {
 			continue
 		}
@@ -299,7 +303,7 @@ func (fr *Frame) frameCheck(fc *FuncContract, ex exitPoint, env *Env) {
 		// objects allocated during the call may be written freely
 		allowed = append(allowed, Not(Sel("alive0", r)))
 		goal := Or(append(allowed, Eq(Sel(final, r), Sel(init, r)))...)
-		vc.oblige("frame", fmt.Sprintf("%s/frame/%s", key, className(class)), tags, ex.pc, goal, ex.pos, "only the locations in `modifies` change: "+class)
+		vc.oblige("frame", fmt.Sprintf("%s/%s", prefix, className(class)), tags, pc, goal, pos, "only the locations in `modifies` change: "+class)
 	}
 }
 
